@@ -391,6 +391,24 @@ func (a Float) M__rdivmod__(other Object) (Object, Object, error) {
 	return NotImplemented, None, nil
 }
 
+// Raises a to the power b following Python's rules for the cases
+// where the IEEE function returns an infinity, a nan or a zero
+func floatPow(a, b Float) (Object, error) {
+	x, y := float64(a), float64(b)
+	if x == 0 && y < 0 && !math.IsInf(y, 0) {
+		return nil, ExceptionNewf(ZeroDivisionError, "0.0 cannot be raised to a negative power")
+	}
+	if x < 0 && !math.IsInf(x, 0) && !math.IsInf(y, 0) && y != math.Floor(y) {
+		// negative number to a fractional power has a complex result
+		return Complex(complex(x, 0)).M__pow__(Complex(complex(y, 0)), None)
+	}
+	r := math.Pow(x, y)
+	if math.IsInf(r, 0) && !math.IsInf(x, 0) && !math.IsInf(y, 0) && x != 0 {
+		return nil, ExceptionNewf(OverflowError, "(34, 'Numerical result out of range')")
+	}
+	return Float(r), nil
+}
+
 func (a Float) M__pow__(other, modulus Object) (Object, error) {
 	if modulus != None {
 		return NotImplemented, nil
@@ -400,7 +418,7 @@ func (a Float) M__pow__(other, modulus Object) (Object, error) {
 		return nil, err
 	}
 	if ok {
-		return Float(math.Pow(float64(a), float64(b))), nil
+		return floatPow(a, b)
 	}
 	return NotImplemented, nil
 }
@@ -411,7 +429,7 @@ func (a Float) M__rpow__(other Object) (Object, error) {
 		return nil, err
 	}
 	if ok {
-		return Float(math.Pow(float64(b), float64(a))), nil
+		return floatPow(b, a)
 	}
 	return NotImplemented, nil
 }
